@@ -36,6 +36,7 @@ func main() {
 	stories := fs.Int("stories", 50, "percent of histories with a scripted dispute story")
 	replicas := fs.Int("replicas", 8, "replicas per history (C01)")
 	probe := fs.Bool("probe", false, "probe aggregate getters after every block")
+	pre := fs.String("pre", "", "spec pre-images computed by TLC (C15)")
 	only := fs.Int("only", 0, "run only this history (1-based)")
 	mintinit := fs.Bool("mintinit", false, "governance starts minting in the bootstrap block")
 	_ = fs.Parse(os.Args[2:])
@@ -50,6 +51,10 @@ func main() {
 	case "c01":
 		err = h.RunC01(*trace, *stats, *seed, *n, *replicas, h.HistOpts{Blocks: *blocks, MaxOpsPerBlk: *maxops, Boundary: *boundary, GovOps: *gov, TimeJumps: *jumps,
 			MintInitEarly: *mintinit, ValStatus: *valstatus, Stories: *stories})
+	case "c15gen":
+		err = h.RunC15Gen(*cases, *seed, *thorough)
+	case "c15":
+		err = h.RunC15(*cases, *pre, *trace, *stats)
 	case "c18":
 		err = h.RunC18(*cases, *trace, *stats, *seed)
 	case "hist":
